@@ -7,6 +7,7 @@
 //    (`c07 scratchimpl` must be 1).
 #include "common.hpp"
 #include "frag.hpp"
+#include "verif_seed.hpp"
 #include "ccl/semantic/RSForm.h"
 #include <algorithm>
 #include <map>
@@ -213,6 +214,7 @@ static void generalHistory(vh::Rng& rng, int L) {
 
 int main() {
   vh::Rng rng(vh::seedFromEnv());
+  ccl::verif::Seed(static_cast<uint32_t>(vh::seedFromEnv() * 2654435761U + 17U));
   const bool deep = vh::thorough();
   // corpus: the self-reference and closed-cycle histories of the pinned defect run always
   {
